@@ -12,7 +12,7 @@ import (
 // 2 empty signature list, 3 one signature fewer, 4 another view label.
 func VH_C10_anyqc(n int, shape int, genesisHigh int, ed int) {
 	w := VNewWorld(1, n, ed == 1, 0, vsymbolic(), core.WithAggregateQC())
-	q := hotstuff.QuorumSize(n)
+	q := hotstuff.VQuorumRef(n)
 	gen := hotstuff.GetGenesis()
 	gqc := hotstuff.NewQuorumCert(nil, 0, gen.Hash())
 	vB := hotstuff.View(nondetU64("vB"))
